@@ -29,11 +29,16 @@ DNSCRYPT_MODREPLACE = {"github.com/ameshkov/dnscrypt/v2@v2.3.0": (
 WIRE_MODREPLACE = dict(QUIC_MODREPLACE, **DNSCRYPT_MODREPLACE)
 WIRE_INSTRUMENT = "internal/dnsserver=textsub:s\\.udpListener\\.\\(\\*net\\.UDPConn\\)=>s.udpListener.(net.PacketConn)"
 
+# The gRPC clients of internal/backendpb dial through the simulated network.
+BPB_INSTRUMENT = ("internal/backendpb=textsub:grpc\\.NewClient\\(apiURL\\.Host\\x2c grpc\\.WithTransportCredentials\\(creds\\)\\)"
+                  "=>grpc.NewClient(\"passthrough:///\"+apiURL.Host\\x2c grpc.WithTransportCredentials(creds)\\x2c grpc.WithContextDialer(verifsim.DialContext))")
+
 PROPS = {
     "C16": {
-        "engine": "billsim",
-        "instrument": "internal/billstat=locks",
-        "cfgs": ["", "nofault"],
+        "parts": [
+            {"engine": "billsim", "instrument": "internal/billstat=locks", "cfgs": ["", "nofault"], "share": 2, "chunk": 4000},
+            {"engine": "bpbsim", "instrument": BPB_INSTRUMENT, "cfgs": ["", "nofault"], "share": 1, "chunk": 300},
+        ],
         "quick": {"seconds": 25, "chunk": 4000, "runs": 400000},
         "thorough": {"seconds": 600, "chunk": 20000},
         "rule": ("one run = tape-generated workload (1-4 recorder tasks x 1-10 Record calls over 1-4 devices, "
